@@ -6,6 +6,7 @@
   Kernel-only proofs, core Lean only.
 -/
 import Ark.Proofs.TargetsHist
+import Ark.Proofs.CallbacksFrame
 
 set_option autoImplicit false
 
@@ -1134,5 +1135,64 @@ theorem Good.setRelations (run : ProbeRunner) (p : Path) {w : World} (h : Good w
   exact ⟨fl, post.tinv, by show (opSetRelations run p e mapperIds rels w).state.locks.isLocked = false
                            rw [post.locks]; exact hl,
     fun evt => by rw [post.obs]; exact hno evt⟩
+
+/-! ## the lookups of `SetRelations` neither read nor write observers, log and lock
+
+(the frame vocabulary is that of Ark/Proofs/CallbacksFrame.lean; used by the event theorems of
+Ark/Proofs/CallbacksRel.lean and by the normal form of `setRelationsBatch`,
+Ark/Proofs/BatchRelSet.lean) -/
+
+namespace World
+
+theorem frames_getOrCreate (a : Nat) (rels : List RelID) : Frames (getOrCreate a rels) := by
+  unfold getOrCreate
+  refine Frames.bind (frames_getTable _ _) fun r => ?_
+  cases r with
+  | some t => exact Frames.pure _
+  | none => exact frames_createTable _ _
+
+theorem getExchangeTargets_go_any (T : Table) (w w' : World) : ∀ (rels : List RelID)
+    (ts : List Ent) (ch : Bool) (cm : Mask) (seen : List Comp),
+    getExchangeTargets.go T w' ts ch cm seen rels
+      = (getExchangeTargets.go T w ts ch cm seen rels).mapS fun _ => w'
+  | [], _, _, _, _ => rfl
+  | r :: rest, ts, ch, cm, seen => by
+    simp only [getExchangeTargets.go]
+    split
+    · rfl
+    · split
+      · rfl
+      · split
+        · rfl
+        · split
+          · exact getExchangeTargets_go_any T w w' rest _ _ _ _
+          · exact getExchangeTargets_go_any T w w' rest _ _ _ _
+
+/-- `getExchangeTargets` only passes the world through -/
+theorem getExchangeTargets_any (T : Table) (rels : List RelID) (w w' : World) :
+    getExchangeTargets T rels w' = (getExchangeTargets T rels w).mapS fun _ => w' := by
+  unfold getExchangeTargets
+  rw [getExchangeTargets_go_any T w w']
+  cases getExchangeTargets.go T w T.targets false Mask.empty [] rels with
+  | panic k s => rfl
+  | ok r s =>
+    obtain ⟨ts, ch, cm⟩ := r
+    simp only [Res.mapS_ok]
+    cases ch <;> rfl
+
+theorem getExchangeTargets_state (T : Table) (rels : List RelID) (w : World) :
+    (getExchangeTargets T rels w).state = w := by
+  unfold getExchangeTargets
+  have := getExchangeTargets_go_state T w rels T.targets false Mask.empty []
+  cases hr : getExchangeTargets.go T w T.targets false Mask.empty [] rels with
+  | panic k s => rw [hr] at this; exact this
+  | ok r s =>
+    rw [hr] at this
+    obtain ⟨ts, ch, cm⟩ := r
+    simp only [Res.state] at this
+    subst this
+    cases ch <;> rfl
+
+end World
 
 end Ark
